@@ -42,12 +42,16 @@ def sandbox_side(src, inputs, calls, files=None, threaded=False):
             line = sb.feedback.location.line
         outcome = {'kind': 'exception', 'cls': type(real).__name__, 'line': line}
     out = {'globals': dump(sb), 'outcome': outcome, 'calls': []}
-    for name, args in calls:
+    for call in calls:
+        name, args = call[0], call[1]
+        kw = {}
+        if len(call) > 2 and call[2] is not None:
+            kw['inputs'] = list(call[2])
         if not callable(sb.data.get(name)):
             out['calls'].append(['undefined', name])
             continue
         try:
-            r = S.call(name, *[eval(a) for a in args])
+            r = S.call(name, *[eval(a) for a in args], **kw)
             v = unwrap_value(r)
             if isinstance(v, BaseException):
                 out['calls'].append(['raise', type(v).__name__])
